@@ -176,6 +176,19 @@ func (vc *VC) singleScriptOpt(target *Obligation, model bool, deep bool) string 
 			terms = append(terms, skolem{t, offSort})
 		}
 	}
+	if vc.c == nil || !vc.c.InstGoalOnly {
+		for _, pt := range vc.progTerms {
+			dup := false
+			for _, t := range terms {
+				if t.name == pt.name {
+					dup = true
+				}
+			}
+			if !dup {
+				terms = append(terms, pt)
+			}
+		}
+	}
 	// cut point: position of the target among the items
 	tpos := -1
 	for i, it := range vc.items {
@@ -296,14 +309,17 @@ func (vc *VC) singleScriptOpt(target *Obligation, model bool, deep bool) string 
 			// (=> A B) with quantifiers in A: assume A (so that it is instantiated like any hypothesis), prove B
 			if gsx != nil && strings.Contains(goal, "(forall ") {
 				for gsx.head() == "=>" && len(gsx.L) == 3 {
-					ant := gsx.L[1]
-					if ant.head() == "and" {
-						for _, c := range ant.L[1:] {
-							emit(c.String())
+					var flat func(a *Sx)
+					flat = func(a *Sx) {
+						if a.head() == "and" {
+							for _, c := range a.L[1:] {
+								flat(c)
+							}
+							return
 						}
-					} else {
-						emit(ant.String())
+						emit(a.String())
 					}
+					flat(gsx.L[1])
 					gsx = gsx.L[2]
 					goal = gsx.String()
 				}
